@@ -790,7 +790,12 @@ func (vfs *MemFS) Readlink(name string) (string, error) {
 		return "", &fs.PathError{Op: op, Path: name, Err: err}
 	}
 
-	return sl.link, nil
+	verifYield(&sl.mu, false)
+	sl.mu.RLock()
+	link := sl.link
+	sl.mu.RUnlock()
+
+	return link, nil
 }
 
 // Rel returns a relative path that is lexically equivalent to targpath when
